@@ -26,6 +26,7 @@ class Obligation:
     facts: dict = field(default_factory=dict)
     context: str = ""  # dispatch class for context-sensitive rules
     nontrivial: bool = True
+    undecided: str = ""  # reason why an unmet obligation could not be trusted (dynamic dispatch on the evidence path)
 
     def key(self) -> tuple[str, str, str]:
         return (self.rule, self.func, self.construct)
@@ -36,7 +37,7 @@ class Obligation:
             "function": self.func,
             "construct": self.construct,
             "where": self.where,
-            "verdict": "ok" if self.ok else "VIOLATION",
+            "verdict": "ok" if self.ok else ("UNDECIDED" if self.undecided else "VIOLATION"),
         }
         if self.context:
             d["context"] = self.context
@@ -73,6 +74,14 @@ class Checker:
             construct = construct[:240]
         full = rule if rule.startswith(self.prop) else f"{self.prop}.{rule}"
         o = Obligation(self.prop, full, fname, construct, where, ok, why, facts or {}, context or "", nontrivial)
+        if not ok and isinstance(fn, FuncInfo):
+            from .opaque import evidence_opaque
+            try:
+                reason = evidence_opaque(self.pm, fn)
+            except Exception:
+                reason = None
+            if reason:
+                o.undecided = reason
         self.obligations.append(o)
         self.rules_run[full] = self.rules_run.get(full, 0) + 1
         return o
@@ -155,7 +164,8 @@ def match_known(o: Obligation, known: list[dict]) -> dict | None:
 def finish(chk: Checker, t0: float, seed: int, extra_cov: dict | None = None) -> int:
     """Print the verdict, write evidence, return the exit code."""
     known = load_known()
-    viol = [o for o in chk.obligations if not o.ok]
+    viol = [o for o in chk.obligations if not o.ok and not o.undecided]
+    undecided = [o for o in chk.obligations if not o.ok and o.undecided]
     new, kn = [], []
     seen = set()
     for o in viol:
@@ -212,7 +222,8 @@ def finish(chk: Checker, t0: float, seed: int, extra_cov: dict | None = None) ->
         "non-trivial = the instance carried a real obligation (not vacuous)",
         "samples": samples,
         "obligations": len(chk.obligations),
-        "discharged": len(chk.obligations) - len(viol),
+        "discharged": len(chk.obligations) - len(viol) - len(undecided),
+        "undecided": [dict(o.as_dict(), reason=o.undecided) for o in undecided][:20],
         "rules": chk.rules_run,
         "files_analysed": len(chk.pm.modules),
         "classes": len(chk.pm.classes),
@@ -245,10 +256,21 @@ def finish(chk: Checker, t0: float, seed: int, extra_cov: dict | None = None) ->
     os.makedirs(ev_dir, exist_ok=True)
     with open(os.path.join(ev_dir, f"{chk.prop}.json"), "w") as f:
         json.dump(ev, f, indent=1, default=str)
-    n_ok = len(chk.obligations) - len(viol)
+    n_ok = len(chk.obligations) - len(viol) - len(undecided)
     print(
         f"{chk.prop}: {len(chk.obligations)} obligations, {n_ok} discharged, "
         f"{len(kn)} known finding(s), {len(new_u)} new violation(s); "
         f"{len(chk.pm.modules)} files, {len(chk.pm.functions)} functions analysed"
     )
-    return 1 if new_u else 0
+    if new_u:
+        return 1
+    if undecided:
+        seen_u = set()
+        for o in undecided:
+            if o.key() in seen_u:
+                continue
+            seen_u.add(o.key())
+            print(f"UNDECIDED {o.where}  {o.rule}  {o.func}  `{o.construct}`  -- the rule did not find what it requires, but {o.undecided}")
+        print(f"ANALYSIS-ERROR property={chk.prop}: {len(seen_u)} rule instance(s) cannot be decided: the code uses dynamic dispatch that the analysis does not follow")
+        return 2
+    return 0
